@@ -98,7 +98,7 @@ def main():
                      "kind_free_text": ENGINE_TEXT.get(e, "")} for e, ps in sorted(engines.items())],
         "checks": checks,
         "not_applicable": na,
-        "notes": "All checks: ./run.sh <Cxx> <quick|thorough>; rebuilds the instrumented harness from /repo's working tree on every run. KNOWN_FINDINGS.txt lists genuine defects: repaired in /repo by 56 fix: commits (57 fixed: lines, which suppress nothing) and 4 open ones (KF-3 C19 sorted-set key collision, KF-4 C12 zero run taken for the end of data, KF-5 C12 Middle chunk swap, KF-6 C02 failed Commit of an overflowing batch leaves its flushed pieces visible until the restart), each printed as a KNOWN-FINDING line by its check, which exits 0 and reports anything else. DESIGN.md section 10 is the as-built report (10.4 repairs, 10.5 open findings and limits, 10.6 which checks catch which of the 210 seeded changes in /verif/seeded).",
+        "notes": "All checks: ./run.sh <Cxx> <quick|thorough>; rebuilds the instrumented harness from /repo's working tree on every run. KNOWN_FINDINGS.txt lists genuine defects: repaired in /repo by 56 fix: commits (57 fixed: lines, which suppress nothing) and 4 open ones (KF-3 C19 sorted-set key collision, KF-4 C12 zero run taken for the end of data, KF-5 C12 Middle chunk swap, KF-6 C02 failed Commit of an overflowing batch leaves its flushed pieces visible until the restart), each printed as a KNOWN-FINDING line by its check, which exits 0 and reports anything else. DESIGN.md section 10 is the as-built report (10.4 repairs, 10.5 open findings and limits, 10.6 which checks catch which of the 230 seeded changes in /verif/seeded).",
     }
     json.dump(m, open("/verif/MANIFEST.json", "w"), indent=1)
     print("wrote MANIFEST.json with", len(checks), "checks,", len(na), "not_applicable")
